@@ -2,4 +2,4 @@ module github.com/ah-naf/borno
 
 go 1.22.6
 
-require golang.org/x/text v0.21.0 // indirect
+require golang.org/x/text v0.21.0
